@@ -222,6 +222,18 @@ func (c *Condition) Simplify() QueryNode {
 	return c
 }
 
+// QuoteValue quotes the given text as a string literal. The lexer takes a backslash directly before a double quote
+// to be escaping that quote, even when the backslash is itself the second half of an escaped backslash, so a value
+// ending in a backslash can't be written as ...\\" without the literal swallowing the text that follows it.
+// Instead the final backslash is written as the equivalent escape \x5c.
+func QuoteValue(value string) string {
+	quoted := strconv.Quote(value)
+	if strings.HasSuffix(quoted, `\\"`) {
+		quoted = quoted[:len(quoted)-3] + `\x5c"`
+	}
+	return quoted
+}
+
 func (c *Condition) String() string {
 	property := c.propKey
 	value := c.value
@@ -235,7 +247,7 @@ func (c *Condition) String() string {
 
 	if !isNumberRegex.MatchString(value) {
 		// if not a decimal then quote
-		value = strconv.Quote(value)
+		value = QuoteValue(value)
 	}
 
 	return fmt.Sprintf(`%s %s %s`, property, c.operator, value)
